@@ -88,6 +88,11 @@ CHECKS = {
     text="Decides schedule-independence of every vector output: from the same effect logs as C11, each element has at most one writing unit of work per barrier group and groups are ordered by program text, so the sequence of floating-point updates an element receives is a function of the code path only; no dynamic/guided/runtime schedule, atomic, critical section or thread id occurs; floating-point reductions are confined to the scalar kernels and their results are stored in scalars only (stop test). The element-wise kernels equal their definition on exact tables. The size of the re-association difference of the scalar reductions across thread counts, and rounding, are numerical and not decided.",
     note="Trusted: as C11. Not decided: numerical closeness across thread counts; kernels above/below the 10 000 threshold differ only in the `if` clause, which does not change the element-wise result.",
     ref="DESIGN.md section 4 / C12"),
+ "C19": dict(
+    level="proof", technique="static analysis / CAS: closed forms extracted from the source into sympy (differentiation, simplification; 50-digit evaluation where simplification does not terminate); abstract interpretation of selectTestCase over the option product",
+    text="The input-function classes are pure closed forms; their return expressions are extracted from the IR. Decided symbolically: the four Jacobian functions are the partial derivatives of the mapping for Circular, Shafranov and Czarny (12 identities); every gyro profile has alpha*beta == 1 and every other beta == 0; u_D and u_D_Interior equal the exact solution for all (problem, geometry) pairs; selectTestCase, interpreted for all 128 option combinations, throws or selects five classes whose name components equal the options with constructor arguments in the same roles. The source term of all 66 non-Culham classes is compared with -div(alpha grad u)+beta u formed symbolically from the extracted u, alpha, beta and mapping, at 50-digit precision at random points (relative 1e-7, because the shipped forms carry rounded constants): 63 agree, the three Poisson x Czarny classes do not and are recorded as known findings.",
+    note="Trusted: clang front end, gmgir lowering, sympy diff/simplify/lambdify, mpmath. R-C19-5 is a numerical identity check on extracted closed forms, not a symbolic proof. Not decided: Culham (tabulated ODE solution, prescribed source term).",
+    ref="DESIGN.md section 4 / C19"),
 }
 NA = {
  "C02": "order of accuracy is a limit statement about numerical error under refinement; no clause is visible in the shape of the code (its code-shaped preconditions are checked under C03/C10/C19)",
